@@ -268,6 +268,7 @@ def do_crash(how, where):
 _thread_events = {}
 _thread_ledger = []
 _ATEXIT_DONE = {}
+_CHATTER = {}
 
 
 def _stream(name):
@@ -398,6 +399,42 @@ def run_actions(actions, phase, ctx):
                 sys.stderr = io.StringIO()
             else:
                 sys.stdout = io.StringIO()
+        elif do == 'stderr_chatter':
+            # a worker thread that logs to sys.stderr (whatever object that
+            # is at the moment) every few microseconds for a while: started
+            # now, it goes on for `for_s` seconds after the action
+            # 'stderr_chatter_go' (e.g. in the layer's tearDown) and then
+            # ends by itself (not a daemon: the interpreter waits for it)
+            st = _CHATTER.setdefault(a.get('key', 'c'), {
+                'go': threading.Event(), 'n': 0})
+            line = a.get('text', 'worker: still alive\n')
+            dur = float(a.get('for_s', 0.25))
+            try:
+                sys.setswitchinterval(1e-5)
+            except Exception:
+                pass
+
+            def chatter(st=st, line=line, dur=dur):
+                if not st['go'].wait(30):
+                    return
+                end = time.monotonic() + dur
+                while time.monotonic() < end:
+                    try:
+                        f = sys.stderr
+                        f.write(line)
+                        f.flush()
+                        st['n'] += 1
+                    except Exception:
+                        pass
+                    time.sleep(0)
+            t = threading.Thread(target=chatter, name='ign-chatter')
+            t.start()
+            emit('chatter.started', key=a.get('key', 'c'))
+        elif do == 'stderr_chatter_go':
+            st = _CHATTER.get(a.get('key', 'c'))
+            if st is not None:
+                st['go'].set()
+                emit('chatter.go', key=a.get('key', 'c'))
         elif do == 'atexit_write':
             # something that writes to the real stderr when the interpreter
             # shuts down (atexit hook, logging.shutdown, "Exception ignored
